@@ -71,6 +71,9 @@ class FnView:
             out = fact_set(g)
             for d in (1, 2, 3, 4):
                 out |= fact_set(g, self.res.src_at(d))
+            flagged = [(self.res.expr(a, d), o) for a, o in g for d in (1, 2) if isinstance(a, ast.expr) and any(isinstance(x, ast.Name) and x.id in self.res.defs for x in ast.walk(a))]
+            if flagged:
+                out |= fact_set(flagged)
             return out
         return fact_set(g)
 
@@ -117,6 +120,12 @@ def alpha(fact: str, locals_: set[str]) -> str:
             return order[nm]
         return nm
 
+    elems = [x for x in locals_ if "[" in x]
+    if elems:
+        # a vanished element read (`marks[i]`) is one token: first pass gives it a private marker
+        for k, x in enumerate(sorted(elems)):
+            fact = fact.replace(x, f"__elem{k}__")
+        locals_ = set(locals_) | {f"__elem{k}__" for k in range(len(elems))}
     return _IDENT.sub(rep, fact)
 
 
@@ -131,6 +140,25 @@ def fn_names(v: "FnView") -> set[str]:
     return c
 
 
+_REVIEWED: dict | None = None
+
+
+def new_names(v: "FnView") -> set[str]:
+    """Identifiers of the function that the reviewed tree's version of it did not contain
+    (selftest/reviewed_names.json).  Only ever used to decline a judgement."""
+    global _REVIEWED
+    if _REVIEWED is None:
+        import json
+        import os
+
+        pth = os.path.join(os.path.dirname(os.path.dirname(os.path.abspath(__file__))), "selftest", "reviewed_names.json")
+        _REVIEWED = json.load(open(pth)) if os.path.exists(pth) else {}
+    rv = _REVIEWED.get(v.fn.key)
+    if rv is None:
+        return set()
+    return fn_names(v) - set(rv)
+
+
 def vanished(v: "FnView", fact: str) -> set[str]:
     """Identifiers a table fact mentions that the function no longer contains: a renamed or
     removed local.  Such a fact is compared modulo renaming, and when it still does not hold the
@@ -139,7 +167,17 @@ def vanished(v: "FnView", fact: str) -> set[str]:
         return set()
     body = fact[4:] if fact.startswith("raw:") else fact
     body = re.sub(r"'[^']*'|\"[^\"]*\"", "''", body)
-    return {m.group(1) for m in _IDENT.finditer(body) if m.group(1) not in _KW} - fn_names(v)
+    gone = {m.group(1) for m in _IDENT.finditer(body) if m.group(1) not in _KW} - fn_names(v)
+    # element reads `xs[i]` are vocabulary too: a loop rewritten to iterate over the elements
+    # directly no longer contains them
+    subs = getattr(v, "_subs_cache", None)
+    if subs is None:
+        subs = {"".join(src(n).split()) for n in ast.walk(v.fn.node) if isinstance(n, ast.Subscript) and isinstance(n.value, ast.Name) and isinstance(n.slice, (ast.Name, ast.Constant))}
+        v._subs_cache = subs  # type: ignore[attr-defined]
+    for m in re.finditer(r"(?<![\w.])([A-Za-z_]\w*)\[(\w+)\]", body):
+        if "".join(m.group(0).split()) not in subs and m.group(1) in fn_names(v):
+            gone.add(m.group(0))
+    return gone
 
 
 def has_fact(facts: Iterable[str], pattern: str) -> bool:
@@ -182,11 +220,85 @@ def _node_facts(v: FnView) -> list:
             fs = set(_facts(n.node, n.kind == "T"))
             for d in (1, 2, 3, 4):
                 fs |= set(_facts(n.node, n.kind == "T", v.res.src_at(d)))
+            if any(isinstance(x, ast.Name) and x.id in v.res.defs for x in ast.walk(n.node)):
+                # a flag local (`match_all = name == "_"`): the facts of its defining expression
+                for d in (1, 2):
+                    fs |= set(_facts(v.res.expr(n.node, d), n.kind == "T"))
             h = inline_helper(v.prog, v.fn.module.rel, n.node)
             if h is not None:
                 fs |= set(_facts(h, n.kind == "T"))
             out.append((n, fs, {alpha(f, v.locals) for f in fs}))
     v._nf_cache = out  # type: ignore[attr-defined]
+    return out
+
+
+def _node_disjunctions(v: FnView) -> list:
+    """[(cfg node, frozenset of facts)]: the outcome of the node establishes the *disjunction* of the
+    facts.  `x != (a if c else b)` (usually after a local `edge = a if c else b` was resolved)
+    establishes `x != a or x != b`: it discharges a need whose alternatives cover both."""
+    cached = getattr(v, "_nd_cache", None)
+    if cached is not None:
+        return cached
+    from .norm import clone, facts as _facts
+
+    out = []
+    for n in v.cfg.nodes:
+        if n.kind not in ("T", "F") or not isinstance(n.node, ast.expr):
+            continue
+        for d in (0, 1, 2, 3):
+            e = v.res.expr(n.node, d) if d else n.node
+            neg = False
+            while isinstance(e, ast.UnaryOp) and isinstance(e.op, ast.Not):
+                e, neg = e.operand, not neg
+            if not (isinstance(e, ast.Compare) and len(e.ops) == 1):
+                continue
+            for side in ("left", "right"):
+                x = e.left if side == "left" else e.comparators[0]
+                if isinstance(x, ast.IfExp):
+                    arms = []
+                    for arm in (x.body, x.orelse):
+                        c = clone(e)
+                        if side == "left":
+                            c.left = clone(arm)
+                        else:
+                            c.comparators = [clone(arm)]
+                        fs = _facts(ast.fix_missing_locations(c), (n.kind == "T") != neg)
+                        if len(fs) == 1:
+                            arms.append(fs[0])
+                    if len(arms) == 2:
+                        out.append((n, [frozenset([arms[0]]), frozenset([arms[1]])]))
+    # a flag local assigned in several branches (`if c: ok = A else: ok = B`, then `if ok:`): its test
+    # establishes, for each definition, the facts of the defining expression and of the branch it sits in
+    from .norm import fact_set
+
+    binds: dict[str, list] = {}
+    for a in walk_own(v.fn.node):
+        if isinstance(a, ast.Assign) and len(a.targets) == 1 and isinstance(a.targets[0], ast.Name):
+            binds.setdefault(a.targets[0].id, []).append(a)
+        elif isinstance(a, (ast.AugAssign, ast.AnnAssign, ast.NamedExpr, ast.For, ast.comprehension)):
+            for x in ast.walk(a.target):
+                if isinstance(x, ast.Name):
+                    binds.setdefault(x.id, []).append(None)
+        elif isinstance(a, ast.Assign):
+            for t in a.targets:
+                for x in ast.walk(t):
+                    if isinstance(x, ast.Name):
+                        binds.setdefault(x.id, []).append(None)
+    for n in v.cfg.nodes:
+        if n.kind not in ("T", "F") or not isinstance(n.node, ast.expr):
+            continue
+        e, neg = n.node, False
+        while isinstance(e, ast.UnaryOp) and isinstance(e.op, ast.Not):
+            e, neg = e.operand, not neg
+        if isinstance(e, ast.Name) and e.id not in v.fn.params() and len(binds.get(e.id, [])) >= 2 and all(b is not None for b in binds[e.id]):
+            conj = []
+            for b in binds[e.id]:
+                fs = set(_facts(b.value, (n.kind == "T") != neg)) | fact_set(v.cfg.guards_at(b))
+                for d in (1, 2):
+                    fs |= set(_facts(v.res.expr(b.value, d), (n.kind == "T") != neg))
+                conj.append(frozenset(fs))
+            out.append((n, conj))
+    v._nd_cache = out  # type: ignore[attr-defined]
     return out
 
 
@@ -226,6 +338,9 @@ def need_holds(v: FnView, node: ast.AST, alts: list[str], raw: bool = False, non
     local = fact_set(eg)
     for d in (1, 2, 3, 4):
         local |= fact_set(eg, v.res.src_at(d))
+    flagged = [(v.res.expr(a, d), o) for a, o in eg for d in (1, 2) if isinstance(a, ast.expr) and any(isinstance(x, ast.Name) and x.id in v.res.defs for x in ast.walk(a))]
+    if flagged:
+        local |= fact_set(flagged)
     # a local disjunctive guard (`not (A and B)`, `A or B`) discharges a need whose alternatives cover it
     alt_facts = set()
     for a in alts:
@@ -259,6 +374,8 @@ def need_holds(v: FnView, node: ast.AST, alts: list[str], raw: bool = False, non
         elif (gone := vanished(v, fs[0])) and any(alpha(f, v.locals) == alpha(fs[0], v.locals | gone) for f in local):
             return True
         through += _establishing(v, fs[0])
+    if alt_facts:
+        through += [n for n, conj in _node_disjunctions(v) if all(c & alt_facts for c in conj)]
     tn = v.cfg.node_for(node)
     if tn is None:
         raise AnalysisError(f"no CFG node for `{src(node)[:60]}` in {v.fn.key}")
@@ -281,6 +398,10 @@ def require(report: Report, rule: str, v: FnView, node: ast.AST, needs: list, wh
             for a in ([p] if isinstance(p, str) else list(p)):
                 for f in ([a] if a.startswith(("raw:", "re:", "exhausted(")) else need_facts(a)):
                     gone |= vanished(v, f)
+        nn = new_names(v)
+        fresh_ids = sorted({x.id for a, _o in v.cfg.guards_at(node) for x in ast.walk(a) if isinstance(x, ast.Name) and x.id in nn}) if nn else []
+        if fresh_ids and not gone:
+            raise AnalysisError(f"{rule}: {v.fn.key}: the guard of `{construct[:60]}` cannot be compared: it is now guarded through {fresh_ids}, which the reviewed function did not contain; the reviewed condition found 0 time(s) in that form (restructured)")
         if gone:
             raise AnalysisError(f"{rule}: {v.fn.key}: the guard of `{construct[:60]}` cannot be compared: the reviewed condition mentions {sorted(gone)}, which found 0 time(s) in the function now (renamed or restructured)")
         report.violate(
